@@ -61,6 +61,7 @@ def run(check, prog):
     prior(check, prog)
     likelihood(check, prog)
     precedence(check, prog)
+    precedence_tables(check, prog)
     forward(check, prog)
     name_agreement(check, prog)
 
@@ -119,8 +120,12 @@ def posterior(check, prog):
         a = ll[0][2]
         okp = a[0] == sym('pars')
         d = a[1]
-        okd = d == sym('data') or (d[0] == 'ite' and sym('data') in (d[2], d[3]) and
-                                   calls_in(d, 'make_subset_data'))
+        px = sym('pixels')
+        okd = d == sym('data') or (
+            d[0] == 'ite' and calls_in(d, 'make_subset_data') and (
+                # all of the data when no pixel count is given, a subset otherwise
+                (d[1] == ('cmp', 'is not', px, NONE) and d[3] == sym('data')) or
+                (d[1] == ('cmp', 'is', px, NONE) and d[2] == sym('data'))))
         check.require(okp and okd, 'P1-likelihood-arguments', 'Model._lnposterior',
                       'likelihood evaluated at the same pars, on the data (or its '
                       'pixel subset)', loc, fail_detail='_lnlike(%s)' % ', '.join(
@@ -146,6 +151,13 @@ def prior(check, prog):
                   'an InvalidScatterer while building the scatterer gives -inf', loc,
                   fail_detail='-inf returns: %s' % [[show(t)[:60] for t, p in o.cond]
                                                    for o in inf_rets])
+    if len(handler) == 1:
+        has_sc = intern(('cmp', 'in', ('const', 'scatterer'), ('attr', sym('self'), '_maps')))
+        ok_sc = (has_sc, True) in norm_cond(handler[0].cond)
+        check.require(ok_sc, 'P3-invalid-scatterer', 'Model._lnprior guard',
+                      'the scatterer is built (and its validity tested) whenever the '
+                      'model has a scatterer map', loc, fail_detail='handler path: %s' % [
+                          (show(t)[:60], p) for t, p in handler[0].cond])
     cons = [o for o in inf_rets if path_has(
         o.cond, lambda t: t[0] == 'call' and isinstance(t[1], tuple) and
         t[1][0] == 'attr' and t[1][2] == 'check', pol=False)]
@@ -261,6 +273,120 @@ def precedence(check, prog):
                                              'medium_index'], 'P5-optics-precedence',
                   'Model._find_optics keys', 'returns the three optics fields', loc,
                   fail_detail='keys %s' % keys)
+
+
+def precedence_tables(check, prog):
+    """The two look-up functions as truth tables over their guard atoms."""
+    import itertools
+    from hpstatic.logic import select
+    from hpstatic.interp import Frame
+    me, pars, schema = sym('self'), sym('pars'), sym('schema')
+    om = intern(('call', RM, (('idx', ('attr', me, '_maps'), ('const', 'optics')), pars),
+                 ()))
+    # ---- _find_optics: the per-key closure, with its raising path
+    q = M + 'Model._find_optics'
+    fd = prog.func(q)
+    loc = prog.loc(q, fd)
+    it = Interp(prog, max_depth=1, opaque=[RM])
+    it.analyze(q)
+    ok = len(it.closures) == 1
+    detail = '%d inner functions' % len(it.closures)
+    rows = 0
+    if ok:
+        (node_c, cenv, cframe), = it.closures.values()
+        fr = Frame(cframe.module, cframe.owner, cframe.selfcls, cframe.selfname, 0,
+                   q + '.<key>')
+        K = intern(('const', 'K'))
+        v = it.inline_closure(node_c, cenv, cframe, [K], {}, fr, (), keep_raises=True)
+        mv = intern(('idx', om, K))
+        dv = intern(('attr', schema, 'K'))
+        A = intern(('cmp', 'in', K, om))
+        B = intern(('cmp', 'is not', mv, NONE))
+        C = intern(('call', 'hasattr', (schema, K), ()))
+        D = intern(('cmp', 'is not', dv, NONE))
+        for a, b, c, d in itertools.product((True, False), repeat=4):
+            if (b and not a) or (d and not c):
+                continue          # a value can only be tested where it exists
+            asg = {A: a, B: b, C: c, D: d}
+            leaf = select(v, lambda t: asg.get(t))
+            rows += 1
+            if a and b:
+                good = leaf == mv
+            elif c and d:
+                good = leaf == dv
+            else:
+                good = leaf is not None and leaf[0] == 'raise' and \
+                    'MissingParameter' in show(leaf)
+            if not good:
+                ok = False
+                detail = 'model has it=%s (set=%s), data has it=%s (set=%s): %s' % (
+                    a, b, c, d, show(leaf)[:80] if leaf else 'undecided')
+                break
+    check.require(ok, 'P5-optics-precedence', 'Model._find_optics table',
+                  "the model's value if present and not None; else the data's if "
+                  'present and not None; else MissingParameter (%d rows)' % rows, loc,
+                  fail_detail=detail)
+    # ---- _find_noise
+    q = M + 'Model._find_noise'
+    fd = prog.func(q)
+    loc = prog.loc(q, fd)
+    it = Interp(prog, max_depth=1, opaque=[RM])
+    res = it.analyze(q)
+    v = res.ret_with_raises
+    K = intern(('const', 'noise_sd'))
+    mv = intern(('idx', om, K))
+    dv = intern(('attr', schema, 'noise_sd'))
+    A = intern(('cmp', 'in', K, om))
+    B = intern(('cmp', 'is not', mv, NONE))
+    C = intern(('call', 'hasattr', (schema, K), ()))
+    uni = [x for x in subterms(v) if x[0] == 'call' and x[1] == 'numpy.all']
+    ok = len(uni) == 1
+    detail = 'no test that all priors are uniform'
+    rows = 0
+    if ok:
+        U = uni[0]
+        okU = U[2][0][0] in ('comp', 'call') and any(
+            x[0] == 'call' and x[1] == 'isinstance' and
+            x[2][1] == ('classref', 'holopy.core.prior.Uniform') and
+            x[2][0][0] == 'elem' and x[2][0][1] == ('attr', me, '_parameters')
+            for x in subterms(U))
+        ok = okU
+        for a, b, c, nn, u in itertools.product((True, False), repeat=5):
+            if not ok:
+                break
+            if b and not a:
+                continue
+            src = mv if (a and b) else (dv if c else None)
+            asg = {A: a, B: b, C: c, U: u}
+            if src is not None:
+                asg[intern(('cmp', 'is', src, NONE))] = nn
+                # the chosen value may appear as a conditional expression
+                for x in subterms(v):
+                    if x[0] == 'cmp' and x[1] == 'is' and x[3] == NONE and \
+                            x[2][0] == 'ite':
+                        asg[x] = nn
+            if a and b and nn:
+                continue          # the model's value was just tested not None
+            leaf = select(v, lambda t: asg.get(t))
+            if leaf is not None and leaf[0] == 'ite':
+                leaf = select(leaf, lambda t: asg.get(t))
+            rows += 1
+            if src is None:
+                good = leaf is not None and leaf[0] == 'raise'
+            elif not nn:
+                good = leaf == src
+            elif u:
+                good = leaf == num(1)
+            else:
+                good = leaf is not None and leaf[0] == 'raise'
+            if not good:
+                ok = False
+                detail = 'model=%s/%s data=%s value None=%s uniform=%s: %s' % (
+                    a, b, c, nn, u, show(leaf)[:80] if leaf else 'undecided')
+    check.require(ok, 'P5-noise-precedence', 'Model._find_noise table',
+                  "the model's noise_sd if set, else the data's attribute; a None "
+                  'value becomes 1 only when every prior is Uniform, otherwise '
+                  'MissingParameter (%d rows)' % rows, loc, fail_detail=detail)
 
 
 def forward(check, prog):
